@@ -7,7 +7,9 @@ def register(claim, na):
         "Bounded symbolic model checking of the real matrix factories: for each of the built-in gates read from the gate table, "
         "unitarity, self-adjointness when flagged, dagger=adjoint, the additive group law of the one-parameter gates and the fixed "
         "defining relations are decided by z3 (QF_NRA over circle points, i.e. for every real angle) and cross-checked by an exact "
-        "Fourier normal form; structure bound = the gate table itself, so the claim is complete over values for every listed gate.",
+        "Fourier normal form; structure bound = the gate table itself, so the claim is complete over values for every listed gate. Ground: numeric parameters "
+        "vs the symbolic matrix at five angle sets (negative, large, multiples of 2 pi), and an aliasing scenario (a caller overwrites matrix objects "
+        "obtained earlier in place; every gate asked again must report the same matrix).",
         "Trusted: sympy's evaluation of the factories, the sympy->SMT translator (validated by the Fourier cross-check and by replay of "
         "every counterexample on the real code), z3/cvc5. Float constants are exact rationals of the doubles with a 1e-9 entry tolerance; "
         "'computable' is a ground instance run without the sympy/numpy shim (A-ENV-1).",
@@ -20,7 +22,10 @@ def register(claim, na):
         "r+is a pair of real unknowns) of arity 1..3 on every ordered tuple of distinct indices of registers n<=4, circuits of length<=3 "
         "mixing generic, parametric and constant gates (numpy and sympy lifting paths in one trace), SymbolicSimulator and base-class "
         "simulators with six native-set variants, MultiPhaseOperation interleaved, and circuit concatenation; each entry identity against "
-        "the verifier's bit-level embedding oracle is decided by z3 for ALL values of the unknowns. Structure (width, length, pool) is the bound.",
+        "the verifier's bit-level embedding oracle is decided by z3 for ALL values of the unknowns. Structure (width, length, pool) is the bound. "
+        "Every lift and circuit instance also has a NUMERIC twin (all parameters bound to dyadic numbers, numeric state vectors of complex and float "
+        "dtype: all basis vectors and dense vectors) through apply, sequential apply and every simulator variant; constant gates come as dense, "
+        "diagonal, monomial and numeric controlled-rotation matrices - the branch a symbolic run cannot take, counted as ground instances.",
         "Trusted: sympy arithmetic, translator (cross-checked by exact Laurent form; counterexamples replayed on the real code), z3/cvc5. "
         "MultiPhaseOperation phases and constant-gate lifts are ground (no free variable) and counted apart. Arity-4 only in the thorough tier with a sparse generic gate.",
         "symbolic execution of the real circuit code on generic sympy gates/states + z3 QF_NRA identity checking against an embedding oracle",
@@ -44,7 +49,10 @@ def register(claim, na):
         "MultiPhaseOperation/ResetOperation and circuits (explicit and inferred width), with parameter expressions of depth <= 2 over three "
         "symbols and ten map shapes (empty, partial, total, superfluous, numeric, symbol-valued, expression-valued, two-step), z3 decides for all "
         "values that bind-then-evaluate equals evaluate-then-substitute (gate matrices and circuit unitaries) and that bound parameters are the "
-        "substituted expressions; free_symbols lists/order, width preservation and the power/exp refusal are compared concretely on the same runs.",
+        "substituted expressions; free_symbols lists/order, width preservation and the power/exp refusal are compared concretely on the same runs. "
+        "The library always receives its own copy of the map, which must come back with the same key objects in the same order; ONE map object bound to "
+        "several circuits in turn must bind each like a pristine copy (parameters compared by z3); complex bound values under dagger/controlled wrappers "
+        "are ground numeric comparisons (the front end treats symbols as real).",
         "Trusted: sympy subs as the oracle of substitution (simultaneous), translator (Fourier cross-check + replay), z3. Maps do not chain "
         "(no value mentions a key): for chained maps sympy's sequential subs makes 'substituting afterwards' ambiguous, outside the claim.",
         "symbolic execution of bind/free_symbols on sympy symbols + z3 QF_NRA identity in the substituted symbols",
@@ -56,7 +64,8 @@ def register(claim, na):
         "(n <= 3) over parametric, self-adjoint, wrapped and custom gates: z3 decides for all parameter values that the inverse is the "
         "conjugate transpose, circuit+inverse is the identity (unitary gates), double inverse keeps the action, controlled(k) is "
         "|0><0|xI + |1><1|xU with shifted indices for every control position, a layer is the tensor product with row i on qubit i, and "
-        "ancillas act as U x I; structural clauses (one gate per distinct qubit, rows used once, inputs untouched) are compared concretely.",
+        "ancillas act as U x I; structural clauses (one gate per distinct qubit, rows used once, inputs untouched) are compared concretely. "
+        "Every built-in gate of the library's table (read at run time) additionally appears bare as a one-operation circuit under controlled(k) for k below and above it and under inverse().",
         "Trusted: sympy, translator (Fourier cross-check + replay), z3. Power/exp-wrapped gates are ground instances. Parameter rows are "
         "Python lists of symbols. Known finding F2-inverse (fractional power of a self-adjoint-flagged gate).",
         "symbolic execution of circuit constructions on sympy symbols + z3 QF_NRA identity checking against algebraic oracles",
@@ -68,7 +77,9 @@ def register(claim, na):
         "with one control on every ordered pair and two controls on 3 qubits, and mixed circuits under six rule lists; equality up to one "
         "global phase is expressed without quantifier alternation as the vanishing of all 2x2 minors of (vec U_dec, vec U_orig) against "
         "non-zero pivots and decided by z3 for all angles; kept operations/order, register width, empty rule list and rule chaining are concrete "
-        "comparisons; numeric U3 parameters at special angles (value-specific branches) are partly ground instances.",
+        "comparisons; numeric U3 parameters at special angles (value-specific branches) are partly ground instances. Because known finding F9 makes "
+        "every generic controlled-U3 instance fail on the pinned tree, the family U3(theta,phi,-phi) / U3(theta,0,0) under 1-2 controls - exact on the pinned "
+        "tree - is checked symbolically and at numeric angles outside [0, 2 pi), so that a further defect in that code is not masked.",
         "Trusted: sympy, translator (Fourier cross-check + replay), z3; obligations on which z3 and cvc5 give up are decided by the exact Fourier "
         "certificate and counted apart. Known finding F9 (controlled-U3 relative phase).",
         "symbolic execution of the decomposition on sympy symbols + z3 QF_NRA on rank-one (proportionality) minors",
@@ -89,7 +100,8 @@ def register(claim, na):
     claim(
         "C05", "model_checking",
         "Every instance circuit (each built-in gate, custom gates with symbolic matrices incl. under wrappers, wrapper nestings to depth 2-3, "
-        "parameters of eleven expression shapes over nine families of symbol names incl. indexed names and names living in sympy's namespace, "
+        "parameters of eleven expression shapes over sixteen families of symbol names incl. indexed names, indexed names of which one is a suffix / prefix / "
+        "digit-prefix of another, names living in sympy's namespace and number-like names, all three names of a family in one gate, power exponents 0, 1, -2, "
         "numbers, empty circuits, idle qubits, circuit sets, two circuits sharing a custom gate name) is pushed through dict, real JSON text, "
         "StringIO and a real file; structure (width, wrapper chain, control counts, exponents, qubits, parameters, free symbols, custom "
         "definitions, ==) is compared concretely and 'same matrix for every assignment of its symbols' is the identity U_orig(theta)=U_deser(theta) "
@@ -117,9 +129,14 @@ def register(claim, na):
         "w<=3, every marked subset) is proved equal to the signed count average; Measurements.get_expectation_values over all multisets of <=3 shots "
         "(width 2; sampled width 3) and operators of <=3 Ising terms (overlapping, repeated, constant, constant last) with every coefficient a symbolic "
         "real is proved to give coefficient x sample mean, sample means of products, and (corr - mean*mean)/N or /(N-1); counts/from_counts/"
-        "get_distribution are explored by exhaustive case split of symbolic counts 0..3. Parity tallies are ground instances.",
+        "get_distribution are explored by exhaustive case split of symbolic counts 0..3. Large histograms (257 and 4097 distinct outcomes of 9- and "
+        "13-qubit registers, every count symbolic; thorough: 4096 / 8191) are one linear query each after the shared denominator is cleared; registers of "
+        "9-17 qubits with operators on qubit subsets beyond index 8; parity tallies of get_parities_from_measurements with a SYMBOLIC multiplicity of "
+        "every outcome (w<=3 all outcomes, a 10-qubit subset): [even, odd] per term and [equal, unequal] per pair are the exact sums of multiplicities.",
         "Exact-real model of floats with 1e-9 tolerance where the library divides concrete counts in floats; numpy proxied to object arrays inside "
-        "measurements.py (listed in evidence); shot lists are concrete (len() needs an int).",
+        "measurements.py / parities.py (listed in evidence); shot lists are concrete (len() needs an int) except in the parity instances, where "
+        "collections.Counter(measurements) is replaced by its contract on an opaque symbolic multiset (any other use of the list makes the instance inconclusive); "
+        "elementwise isclose on symbolic arrays decides every entry (forked) and yields a real boolean mask.",
         "shadow symbolic counts/coefficients through the real numpy code + z3 obligations per path",
         "DESIGN.md §1 E2, §2 C10",
     )
@@ -131,7 +148,7 @@ def register(claim, na):
         "symbolic kernel rate q=e^{-1/(2 sigma)} in (0,1) (symmetric, zero on equal arguments, non-negative, equal to d^T K(q) d), clipped NLL with "
         "symbolic epsilon (>= entropy - (sum of clipped - 1), ln uninterpreted + instantiated axioms) and JSD symmetry; z3 decides every obligation per path.",
         "Exact-real floats; math.log abstracted to an uninterpreted function with the two axioms listed in evidence (models under that abstraction that do "
-        "not reproduce are reported inconclusive); bad-input rejection and save/load are ground instances.",
+        "not reproduce are reported inconclusive); bad-input rejection and save/load (incl. explicit zero-probability outcomes, tiny weights, multi-digit keys) are ground instances.",
         "shadow symbolic weights through the real code + DFS path explorer (z3 feasibility) + per-path z3 obligations; UF abstraction of ln",
         "DESIGN.md §1 E2, §2 C17",
     )
@@ -141,9 +158,11 @@ def register(claim, na):
         "histories of <= 3 element assignments and get_probabilities run through the real code (numpy proxied to object arrays); z3 proves on every "
         "path that acceptance coincides with the normalisation band, that a rejected assignment leaves the object exactly as it was, that accepted "
         "assignments store the value, and that probabilities are |a|^2 and sum to 1. The Dicke bit trick is the real function executed on a 20-bit "
-        "z3 bit-vector (same weight, larger, nothing skipped, for every value below 2^14). flip_amplitudes is run on symbolic amplitudes (bit reversal, involutive).",
+        "z3 bit-vector (same weight, larger, nothing skipped, for every value below 2^14). flip_amplitudes is run on symbolic amplitudes (bit reversal, involutive). "
+        "In the library's symbolic mode get_probabilities() of six wavefunctions with free symbols and non-real entries (imaginary numbers, complex "
+        "combinations, phase factors, after a binding / an assignment) is proved equal to |amplitude|^2 for all real symbol values (E1, z3 over circle points).",
         "Exact-real floats with a 1e-6 relative margin around the band edge; the library's symbolic (sympy) mode cannot hold symbolic numeric entries: "
-        "a ground table of 16 constructor/assignment/binding patterns; Dicke enumeration, save/load and length validation are ground instances.",
+        "a ground table of 32 constructor/assignment/binding patterns incl. histories where a new symbol enters by assignment and is bound later; Dicke enumeration, save/load and length validation are ground instances.",
         "shadow symbolic amplitudes through the real code + DFS path explorer (z3) + per-path obligations; duck-typed bit-vector execution of the bit trick",
         "DESIGN.md §1 E2/E4, §2 C12",
     )
@@ -167,7 +186,7 @@ def register(claim, na):
         "counters, symbolic n_samples, per-circuit lists <= 3 vs batches <= 3): BaseCircuitRunner.run_and_measure / run_batch_and_measure (int and "
         "list forms) / get_measurement_outcome_distribution, BaseWavefunctionSimulator.get_wavefunction over circuits of <= 4 mock operations with "
         "symbolic native flags (jobs += maximal runs, circuits += native runs, every operation handled once in order at full width), the "
-        "simulator's rejections, and the tracking wrapper (returns the wrapped result, counters after the wrapped runner accepted): invalid => "
+        "simulator's rejections, and the tracking wrapper (returns the wrapped result - also when the wrapped runner pads its shots -, counters after the wrapped runner accepted): invalid => "
         "ValueError with counters unchanged and nothing executed; valid => one result per circuit in order and exact counter growth.",
         "The inductive step covers histories of any length for the counter clauses. _run_and_measure, operations, the native hook and the tracker's "
         "record/save are counting stubs; CUT-FMT. Shots >= requested, bitstring length = width and the tracker's JSON record are ground instances on the real simulator.",
@@ -181,9 +200,13 @@ def register(claim, na):
         "result per task at the task's position (tagging stubs make the pairing observable), a constant operator yields exactly its constant, a "
         "non-constant zero-shot task yields zero, and the runner is called once with exactly the measurable tasks in order; that "
         "split_estimation_tasks_to_measure partitions the indices in order; and that evaluate_estimation_circuits binds task i with map i and "
-        "changes nothing else. Basis-state exactness is proved by z3 for a symbolic shot count n >= 1 (all shots on one outcome, width <= 3).",
+        "changes nothing else. Basis-state exactness is proved by z3 for a symbolic shot count n >= 1 (all shots on one outcome, width <= 3). "
+        "E2: task lists of <= 4 (thorough 5) tasks over five kinds go through the real averaging estimator with every CONSTANT a symbolic real in [-8, 8] "
+        "(real- and complex-typed): on every path a constant task yields exactly its constant and a zero-shot task zero. E1: calculate_exact_expectation_values "
+        "on task lists whose circuits have symbolic angles (shot numbers None/0/1/4/100, constant operators in between): z3 decides value_i = <psi_i|O_i|psi_i> for all angles.",
         "Runner/measurement objects are tagging stubs in the CrossHair harnesses; CUT-FMT; CrossHair verdicts other than 'Confirmed over all paths' "
-        "are inconclusive. The full pipeline on the real simulator and calculate_exact_expectation_values (scipy.sparse) are ground instances.",
+        "are inconclusive. In the symbolic exact-value instances the scipy matrix is the one the real get_sparse_operator returns and only its mat-vec is the "
+        "dense product (stub shared with C04). The stub-free pipeline on the real simulator is a ground instance.",
         "CrossHair/z3 symbolic execution over symbolic task-kind vectors + SymTrace for the symbolic shot count",
         "DESIGN.md §1 E2/E3, §2 C15",
     )
@@ -208,7 +231,8 @@ def register(claim, na):
     claim(
         "C04", "model_checking",
         "Symbolic model checking of the chain of views of one simulated state. With every gate angle symbolic (asymmetric RY layer on each "
-        "qubit, CNOT/SWAP/RX/RZ entanglers, n <= 3 quick / 4 thorough) the REAL SymbolicSimulator.get_wavefunction, "
+        "qubit, CNOT/SWAP/RX/RZ entanglers, circuits ending in overlapping permutation gates, three-qubit gates on scattered out-of-order qubits of a "
+        "4-qubit register, n <= 3 (+ one 4-qubit circuit) quick / 4 thorough) the REAL SymbolicSimulator.get_wavefunction, "
         "get_measurement_outcome_distribution(circuit, None), get_exact_expectation_values (every Z-type operator on every qubit subset, X/Y "
         "and mixed strings, a sum with a constant) and run_and_measure in BOTH sampling branches are executed, and z3 decides for all angles: "
         "amplitudes = ordered product of bit-level embeddings (qubit 0 most significant); distribution[key] = |amplitude|^2 of the basis state "
@@ -216,7 +240,8 @@ def register(claim, na):
         "under the exact distribution (two real views, no oracle); each returned sample tuple was drawn with the probability of the basis state "
         "carrying those bits and has the register's length. sample_from_wavefunction and "
         "create_bitstring_distribution_from_probability_distribution are also explored on fully generic symbolic amplitudes / probability vectors; "
-        "expectation from frequencies with every count symbolic and single-shot estimates with symbolic coefficients close the chain.",
+        "expectation from frequencies with every count symbolic, single-shot estimates with symbolic coefficients and estimates on 9-17-qubit registers "
+        "with operators on qubit subsets beyond index 8 close the chain.",
         "Stubs (listed in evidence): scipy.sparse mat-vec inside expectation() replaced by the dense product of the matrix the REAL "
         "get_sparse_operator returned; numpy Generator.choice replaced by a recording stub (numpy's contract: draws only where p > 0), so "
         "'non-zero probability' follows from the proved alignment; float()/is_normalized stubs for the symbolic distribution; a Circuit "
@@ -229,7 +254,8 @@ def register(claim, na):
         "For every expression of an enumerated grammar (atoms x, y, integers, rationals, a float, I; unary -, cos, sin, exp, tan, sqrt, reciprocal; "
         "binary + - * / in both operand orders; powers with twelve exponents; depth 1-2 fully, depth 3 from a seeded subset, 36 hand-picked "
         "rewritten shapes) the REAL expression_from_sympy and translate_expression(SYMPY_DIALECT) are executed and z3 decides, for ALL real "
-        "symbol values in the stated box, that the round trip differs from the original by at most 1e-6: arithmetic, integer powers, division and "
+        "symbol values in the stated box, that the round trip differs from the original by at most 1e-6 (also for 17 symbols whose NAMES contain commas, "
+        "blanks, colons, brackets or ranges, in twelve shapes each): arithmetic, integer powers, division and "
         "real square roots (branch for negative radicands included) are interpreted, the transcendental heads are uninterpreted functions. "
         "Unsupported constructs must be refused (ground). Natural keys: the real natural_key / natural_key_revlex run on names "
         "<prefix><digits><suffix> whose digit group has SYMBOLIC digits (every pair of group lengths up to 10, thorough 18): z3 decides for all "
@@ -265,7 +291,8 @@ def register(claim, na):
         "reversal, to-dict and string views on three receiver and two argument shapes; measurement get_counts / get_distribution / "
         "get_expectation_values with both denominators / from_counts / expectation from frequencies; the distribution constructor on unnormalised "
         "input with tuple and string keys, subdistribution, MMD / clipped NLL / JSD and evaluate_distribution_distance; wavefunction probability views "
-        "over the whole acceptance band of the norm; sixteen circuit / gate operations incl. apply(state), bind(map), serialisation and the simulator): "
+        "over the whole acceptance band of the norm; eighteen circuit / gate operations incl. apply(state), bind(map) with symbol-keyed, name-keyed and "
+        "superfluous-symbol maps, serialisation and the simulator): "
         "every argument and the receiver are built with SYMBOLIC leaves (coefficients, counts, weights, amplitudes as z3 terms; circuits on sympy "
         "symbols), deep snapshots are taken before the call, after it and after a second call on the same shared objects, and on EVERY feasible path of "
         "the real code (SymTrace explorer, z3 feasibility) the snapshots must be equal - structure concretely, symbolic leaves by z3 under the path "
